@@ -353,7 +353,123 @@ func lemmaDailySlotInDataArea(t time.Time, recordSize int32) {
 //@ modifies none
 //@ marks #path: forallstr(key, pattern(keyDirOf(path, key)), keyDirOf(path, key) ==> yearFileOf(f.Path, key))
 
-//@ func (*TimeBucketInfo).GetDeepCopy
-//@ trusted "lazily loads the header of f (sync.Once + file read) and returns a copy: writes TimeBucketInfo objects only"
+// ---------------------------------------------------------------------------------------------
+// C15: the bucket schema held in a TimeBucketInfo survives copying and the header round trip.
+
+//@ func (*sync.Once).Do
+//@ trusted "runs f at most once. The only use in the verified cone is TimeBucketInfo.once.Do(f.initFromFile), which loads the file header into that TimeBucketInfo unless IsRead is already set: TimeBucketInfo objects (and fresh memory) are all it writes"
 //@ modifies mem:utils.io.TimeBucketInfo
-//@ ensures fresh(result)
+
+//@ func (*TimeBucketInfo).GetVersion
+//@ trusted "sync.Once + initFromFile is a no-op once IsRead is set (NewTimeBucketInfo and load set it); then the getter returns the field"
+//@ modifies mem:utils.io.TimeBucketInfo
+//@ ensures #loaded: old(f.IsRead) ==> (result == f.version && forallint(p, pattern(at(f, p)), at(f, p) == old(at(f, p))))
+
+//@ func (*TimeBucketInfo).GetDescription
+//@ trusted "sync.Once + initFromFile is a no-op once IsRead is set (NewTimeBucketInfo and load set it); then the getter returns the field"
+//@ modifies mem:utils.io.TimeBucketInfo
+//@ ensures #loaded: old(f.IsRead) ==> (result == f.description && forallint(p, pattern(at(f, p)), at(f, p) == old(at(f, p))))
+
+//@ func (*TimeBucketInfo).GetTimeframe
+//@ trusted "sync.Once + initFromFile is a no-op once IsRead is set (NewTimeBucketInfo and load set it); then the getter returns the field"
+//@ modifies mem:utils.io.TimeBucketInfo
+//@ ensures #loaded: old(f.IsRead) ==> (result == f.timeframe && forallint(p, pattern(at(f, p)), at(f, p) == old(at(f, p))))
+
+//@ func (*TimeBucketInfo).GetNelements
+//@ trusted "sync.Once + initFromFile is a no-op once IsRead is set (NewTimeBucketInfo and load set it); then the getter returns the field"
+//@ modifies mem:utils.io.TimeBucketInfo
+//@ ensures #loaded: old(f.IsRead) ==> (result == f.nElements && forallint(p, pattern(at(f, p)), at(f, p) == old(at(f, p))))
+
+//@ func (*TimeBucketInfo).GetRecordLength
+//@ trusted "sync.Once + initFromFile is a no-op once IsRead is set (NewTimeBucketInfo and load set it); then the getter returns the field"
+//@ modifies mem:utils.io.TimeBucketInfo
+//@ ensures #loaded: old(f.IsRead) ==> (result == f.recordLength && forallint(p, pattern(at(f, p)), at(f, p) == old(at(f, p))))
+
+//@ func (*TimeBucketInfo).GetRecordType
+//@ trusted "sync.Once + initFromFile is a no-op once IsRead is set (NewTimeBucketInfo and load set it); then the getter returns the field"
+//@ modifies mem:utils.io.TimeBucketInfo
+//@ ensures #loaded: old(f.IsRead) ==> (result == f.recordType && forallint(p, pattern(at(f, p)), at(f, p) == old(at(f, p))))
+
+//@ func (*TimeBucketInfo).GetElementNames
+//@ trusted "sync.Once + initFromFile is a no-op once IsRead is set (NewTimeBucketInfo and load set it); then the getter returns the field"
+//@ modifies mem:utils.io.TimeBucketInfo
+//@ ensures #loaded: old(f.IsRead) ==> (result == f.elementNames && forallint(p, pattern(at(f, p)), at(f, p) == old(at(f, p))))
+
+//@ func (*TimeBucketInfo).GetElementTypes
+//@ trusted "sync.Once + initFromFile is a no-op once IsRead is set (NewTimeBucketInfo and load set it); then the getter returns the field"
+//@ modifies mem:utils.io.TimeBucketInfo
+//@ ensures #loaded: old(f.IsRead) ==> (result == f.elementTypes && forallint(p, pattern(at(f, p)), at(f, p) == old(at(f, p))))
+
+// The header written for a bucket carries its schema: scalars and element types field by field, for every bucket
+// description whose element count fits the header (<= 1024 columns).
+//@ func (*Header).Load
+//@ props C15
+//@ option abstract nestedslice
+//@ requires #loaded: f.IsRead
+//@ requires #count: 0 <= f.nElements && f.nElements <= 1024 && len(f.elementNames) >= f.nElements && len(f.elementTypes) >= f.nElements
+//@ loop 0 invariant #frame: forallint(p, pattern(at(f, p)), at(f, p) == old(at(f, p)))
+//@ loop 0 invariant #idx: 0 <= i && i <= hp.NElements && hp.NElements == f.nElements && f.IsRead
+//@ loop 0 invariant #types: forall(k, 0, i, hp.ElementTypes[k] == f.elementTypes[k])
+//@ loop 0 invariant #scalars: hp.Version == f.version && hp.Year == f.Year && hp.Timeframe == f.timeframe && hp.RecordLength == f.recordLength
+//@ ensures #scalars: hp.Version == f.version && hp.Year == f.Year && hp.Timeframe == f.timeframe && hp.NElements == f.nElements && hp.RecordLength == f.recordLength && hp.RecordType == f.recordType
+//@ ensures #types: forall(k, 0, f.nElements, hp.ElementTypes[k] == f.elementTypes[k])
+//@ ensures #frame: forallint(p, pattern(at(f, p)), at(f, p) == old(at(f, p)))
+
+//@ func (*TimeBucketInfo).load
+//@ props C15
+//@ option abstract nestedslice
+//@ requires #count: 0 <= hp.NElements && hp.NElements <= 1024
+//@ loop 0 invariant #idx: 0 <= i && i <= f.nElements && f.nElements == hp.NElements && len(f.elementTypes) == i && len(f.elementNames) == i
+//@ loop 0 invariant #types: forall(k, 0, i, f.elementTypes[k] == hp.ElementTypes[k])
+//@ loop 0 invariant #others: forallint(p, pattern(at(f, p)), p != f ==> at(f, p) == old(at(f, p)))
+//@ loop 0 invariant #typesFresh: f.elementTypes == nil || base(f.elementTypes) >= oldtop()
+//@ loop 0 invariant #typesFrame: forallint(a, pattern(mem(f.elementTypes)[a]), a < oldtop() ==> mem(f.elementTypes)[a] == old(mem(f.elementTypes))[a])
+//@ loop 0 invariant #scalars: f.version == hp.Version && f.Year == wrap16(hp.Year) && f.timeframe == hp.Timeframe && f.recordLength == wrap32(hp.RecordLength) && f.recordType == wrap8(hp.RecordType) && f.IsRead
+//@ ensures #scalars: f.version == old(hp.Version) && f.Year == wrap16(old(hp.Year)) && f.timeframe == old(hp.Timeframe) && f.nElements == old(hp.NElements) && f.recordLength == wrap32(old(hp.RecordLength)) && f.recordType == wrap8(old(hp.RecordType)) && f.IsRead
+//@ ensures #types: len(f.elementTypes) == old(hp.NElements) && forall(k, 0, old(hp.NElements), f.elementTypes[k] == old(hp.ElementTypes[k]))
+//@ ensures #names: len(f.elementNames) == old(hp.NElements)
+//@ ensures #others: forallint(p, pattern(at(f, p)), p != f ==> at(f, p) == old(at(f, p)))
+//@ ensures #typesFrame: forallint(a, pattern(mem(f.elementTypes)[a]), a < oldtop() ==> mem(f.elementTypes)[a] == old(mem(f.elementTypes))[a])
+
+//@ func bytes.Trim
+//@ trusted "stdlib: a sub-slice of s"
+//@ pure
+
+//@ func path/filepath.Clean
+//@ trusted "stdlib"
+//@ pure
+
+// load(Load(f)) reports the schema f was created with: version, year, timeframe, record type, record length, element
+// count and element types (element names and the description go through bytes.Trim and are not compared).
+func lemmaHeaderRoundTrip(f *TimeBucketInfo) {
+	types := f.elementTypes // read before anything is allocated: the element types live in memory older than the copy
+	h := Header{}
+	h.Load(f)
+	g := NewTimeBucketInfoFromHeader(&h, f.Path)
+	verifAssert(g.version == f.version)           // #version
+	verifAssert(g.Year == f.Year)                 // #year
+	verifAssert(g.timeframe == f.timeframe)       // #timeframe
+	verifAssert(g.recordType == f.recordType)     // #recordType
+	verifAssert(g.recordLength == f.recordLength) // #recordLength
+	verifAssert(g.nElements == f.nElements)       // #count
+	for k := 0; k < int(f.nElements); k++ {
+		verifAssert(g.elementTypes[k] == types[k]) // #elementType
+	}
+}
+
+//@ lemma lemmaHeaderRoundTrip
+//@ props C15
+//@ requires f != nil && f.IsRead
+//@ requires 0 <= f.nElements && f.nElements <= 1024 && len(f.elementNames) >= f.nElements && len(f.elementTypes) >= f.nElements
+//@ loop 0 invariant 0 <= k
+
+//@ func NewTimeBucketInfoFromHeader
+//@ inline
+
+//@ func (*TimeBucketInfo).GetDeepCopy
+//@ props C15 C16
+//@ ensures #fresh: fresh(result)
+//@ ensures #scalars: result.Year == f.Year && result.Path == f.Path && result.IsRead == f.IsRead && result.version == f.version && result.description == f.description && result.timeframe == f.timeframe && result.nElements == f.nElements && result.recordType == f.recordType && result.recordLength == f.recordLength && result.variableRecordLength == f.variableRecordLength
+//@ ensures #names: len(result.elementNames) == len(f.elementNames) && forall(k, 0, len(f.elementNames), result.elementNames[k] == f.elementNames[k])
+//@ ensures #types: len(result.elementTypes) == len(f.elementTypes) && forall(k, 0, len(f.elementTypes), result.elementTypes[k] == f.elementTypes[k])
+
